@@ -755,14 +755,27 @@ impl OsIpcOneShotServer {
         unsafe {
             let sockaddr: *mut sockaddr = ptr::null_mut();
             let sockaddr_len: *mut socklen_t = ptr::null_mut();
-            let client_fd = libc::accept4(self.fd, sockaddr, sockaddr_len, SOCK_FLAGS);
-            if client_fd < 0 {
-                return Err(UnixError::last());
-            }
+            // `accept` consumes the server, so a wait cut short by a signal cannot be retried by the
+            // caller: it is repeated here (nothing has been accepted or received by an interrupted call).
+            let client_fd = loop {
+                let client_fd = libc::accept4(self.fd, sockaddr, sockaddr_len, SOCK_FLAGS);
+                if client_fd >= 0 {
+                    break client_fd;
+                }
+                let error = UnixError::last();
+                if !matches!(error, UnixError::Errno(libc::EINTR)) {
+                    return Err(error);
+                }
+            };
+            let receiver = OsIpcReceiver::from_fd(client_fd);
             make_socket_lingering(client_fd)?;
 
-            let receiver = OsIpcReceiver::from_fd(client_fd);
-            let (data, channels, shared_memory_regions) = receiver.recv()?;
+            let (data, channels, shared_memory_regions) = loop {
+                match receiver.recv() {
+                    Err(UnixError::Errno(libc::EINTR)) => {},
+                    result => break result?,
+                }
+            };
             Ok((receiver, data, channels, shared_memory_regions))
         }
     }
